@@ -9,6 +9,7 @@ import Vuego.Props.C17
 import Vuego.Lemmas.EvalInv
 import Vuego.Lemmas.NoCrashEval
 import Vuego.Lemmas.NoCrashExpr
+import Vuego.Lemmas.FuelMono
 import Vuego.Generated.Parse
 namespace Vuego.Props.C11
 open Go Vuego
@@ -65,6 +66,14 @@ theorem evaluator_never_crashes_with_exprMini (files : List (Str × (Scope × Li
     let W : World := { P := { exprEval := ExprMini.exprEval, cfg := Generated.reflectCfg }, files := files, comps := comps, jsonDecode := jd }
     evaluatePage W fuel file dom stack ≠ .panic site ∧ evaluatePage W fuel file dom stack ≠ .hang site :=
   evaluator_never_crashes _ rfl (fun e env => safe_exprMini e env) fuel file dom stack site
+
+/-- THE ANSWER DOES NOT DEPEND ON THE STEP BOUND. `.fuel` is the model's own bound on the recursion depth; every theorem about the
+    evaluator is stated for every fuel. Once a page evaluates to anything but `.fuel` — output or an error — every larger fuel gives
+    exactly the same result (Lemmas/FuelMono: a refinement order on results, monotone through all nine evaluator functions). The driver's
+    fixed fuel is therefore no parameter of the correspondence. -/
+theorem answer_independent_of_fuel (W : World) (f k : Nat) (file : Str) (dom : List Node) (stack : Stack) (r : R (List Node))
+    (h : evaluatePage W f file dom stack = r) (hne : r ≠ .fuel) : evaluatePage W (f + k) file dom stack = r :=
+  evalList_fuel_mono W f k _ _ _ r h hne
 
 /-- the same for the pieces a render is made of: interpolation, conditions, bound attributes, the pipe interpreter -/
 theorem pieces_never_crash (P : Params) (hcfg : P.cfg = Generated.reflectCfg) (hexpr : ∀ e env, Safe (P.exprEval e env)) (s : Stack) (e a : Str) :
